@@ -197,7 +197,8 @@ def run(repo, tier):
                 rep.check('w' in mode and 'b' in mode and 'a' not in mode and 'x' not in mode, 'R17.2.binary-mode', '-o file opened in binary write mode',
                           lambda e=e, mode=mode: Finding('R17.2.binary-mode', 'cli_main', e.node, 'the output file is opened with mode {!r} instead of \'wb\''.format(mode), line=e.node.lineno))
             wr = [w for w in pe.of('WRITE') if w.open is e]
-            if any(w.loops and [l for l in w.loops if l[0] > e.idx] for w in wr):
+            end = e.closed if e.closed is not None else len(p.events)
+            if any(w.loops and [l for l in w.loops if l[0] > e.idx] for w in wr) or (not wr and any(x[0] == 'loop0' for x in p.events[e.idx:end])):
                 undecided.append('the -o file is written inside a loop (chunked writing is not modelled)')
                 continue
             verdicts = [same_bytes(w.args[0], binary) if (w.method == 'write' and len(w.args) == 1) else None for w in wr]
@@ -285,7 +286,11 @@ def run(repo, tier):
 
 def judge_labels(wr, op, table, path):
     """(True / False / None, why) for the writes on the -l handle."""
+    end = op.closed if op.closed is not None else len(path.events)
+    empty_before = [e for e in path.events[:end] if e[0] == 'loop0' and label_iteration(e[1], table) in ('items', 'keys')]
     if not wr:
+        if any(e in path.events[op.idx:end] for e in empty_before):
+            return True, ''            # the loop over the label table ran zero times: an empty table gives an empty file
         return False, 'nothing is written to the labels file'
     if len(wr) != 1:
         return None, 'the labels file is written by several statements (not modelled)'
@@ -318,6 +323,8 @@ def judge_labels(wr, op, table, path):
             src = None
     else:
         src = None
+    if src is None and w.args and strip(w.args[0]) in (('list', ()), C('')) and empty_before:
+        return True, ''                # lines accumulated by a loop over the label table that ran zero times
     if src is None or src['elt'] is None:
         return None, 'how the label lines are produced is not understood: {}'.format(show(w.args[0])[:80] if w.args else w.method)
     kind = label_iteration(src['iter'], table)
